@@ -146,11 +146,15 @@ def generate_source_area(ctx):
         run.assume((ny >= 1) & (nx >= 1))
         X, Y = arrays.fresh_array("X", [ny, nx], "float"), arrays.fresh_array("Y", [ny, nx], "float")
         xm, ym, u, v = [sym.fresh_real(n) for n in ("xm", "ym", "u", "v")]
-        fns = {n: harness.define(ctx, ns, MOD, n) for n in ("source_area_circular", "source_area_upwind", "source_area_crosswind", "source_area_sector")}
+        fns = {n: harness.define(ctx, ns, MOD, n) for n in ("source_area_contribution", "source_area_circular", "source_area_upwind", "source_area_crosswind", "source_area_sector")}
         mk = lambda fn: Arr(X.axes, fn, "float")  # noqa: E731
         dx = lambda j, i: X.at(j, i) - xm  # noqa: E731
         dy = lambda j, i: Y.at(j, i) - ym  # noqa: E731
         sp = transc.sqrt(u * u + v * v)
+        flx = arrays.fresh_array("flx", [ny, nx], "float")
+        gc = fns["source_area_contribution"](flx)
+        loops.oblige_equal(run, "contribution: g = flx", gc, flx, kind="post", props=P)
+        run.oblige("contribution: a copy, not the footprint array itself", SBool(gc is not flx), kind="post", props=P)
         loops.oblige_equal(run, "circular: -r^2", fns["source_area_circular"](X, Y, (xm, ym)), mk(lambda j, i: -(dx(j, i) ** 2 + dy(j, i) ** 2)), kind="post", props=P)
         loops.oblige_equal(run, "upwind: u_hat . r", fns["source_area_upwind"](X, Y, (xm, ym), (u, v)),
                            mk(lambda j, i: u / sp * dx(j, i) + v / sp * dy(j, i)), kind="post", props=P)
